@@ -265,17 +265,16 @@ class Run:
 
     # -- conformance: execute cases on the real library, validate with TLC
     def conform(self, cases, module, cfg, prelude=None, epilogue=None, shards=12, tag="t",
-                mode="run", timeout=3000, xmx="3g"):
+                mode="run", timeout=3000, xmx="3g", kinds=None):
         """cases: list[Case]; prelude/epilogue: script lines put around every shard."""
         prelude = prelude or []
         epilogue = epilogue or []
         if not cases:
             return
         shards = max(1, min(shards, len(cases)))
-        per = (len(cases) + shards - 1) // shards
         jobs = []
         for s in range(shards):
-            chunk = cases[s * per:(s + 1) * per]
+            chunk = cases[s::shards]          # round-robin: expensive neighbours are spread
             if not chunk:
                 continue
             sp = os.path.join(self.work, "%s%02d.script.ndjson" % (tag, s))
@@ -311,6 +310,8 @@ class Run:
             self.events += len(index)
             self.traces += len(chunk)
             for m in r["mismatches"]:
+                if kinds is not None and not kinds(m["kind"]):
+                    continue
                 c = index[m["l"] - 1] if 0 < m["l"] <= len(index) else None
                 self.mismatches.append((c, m, prelude, epilogue))
             self.drifts += r["drifts"]
